@@ -1,2 +1,178 @@
-/- C14 property theorems (under construction) -/
-import Decaf.Model.Exec
+/-
+C14 — R1CS gadgets are sound against adversarial prover hints.
+
+`R1cs.isqrt x h`, `R1cs.decompress s h` … are the constraint relations of the gadgets (Model/R1cs.lean, read off
+fqvar_ext.rs / inner.rs line by line; arkworks' FpVar/Boolean primitives by contract), as a function of the
+inputs and of the prover-supplied hint `h = some (flag, y)`; the first component says whether all constraints hold.
+
+* `isqrt_sound`: for den ≠ 0 a satisfied system forces the flag (= squareness of den) and y²·den ∈ {1, ζ}:
+  exactly the native contract, for EVERY hint.
+* `isqrt_rel_zero`: at den = 0 the system is satisfied exactly by (false, 0) and by (true, ±1): the second family is
+  the known finding.
+* `decompress_sound_partial`: for s ≠ ±1 … i.e. whenever the discriminant argument is non-zero, a satisfied decode
+  gadget means the native specification decodes s, to the point the gadget outputs.  FULL STATEMENT (no side
+  condition) is false: `decode_unsound_at_minus_one` exhibits the satisfying forged hint at s = q - 1.
+-/
+import Decaf.Lemmas.RoundTrip
+import Decaf.Model.R1cs
+
+namespace C14
+open Model Edwards Decaf
+
+theorem zeta_ne_zero : ((ZETA : ℕ) : Fq) ≠ 0 := by
+  intro h0; exact zeta_nonsquare (by rw [h0]; exact ⟨0, by ring⟩)
+
+/-- **isqrt is sound for den ≠ 0**, whatever the hint -/
+theorem isqrt_sound {x : ℕ} (hx : x < q) (hx0 : x ≠ 0) (f : Bool) (y : ℕ) (_hy : y < q)
+    (hsat : (R1cs.isqrt x (some (f, y))).1 = true) :
+    (f = true ↔ IsSquare (x : Fq)) ∧ (y : Fq) ^ 2 * (x : Fq) = if f then 1 else (ZETA : Fq) := by
+  have hxq : (x : Fq) ≠ 0 := by rwa [Ne, cast_eq_zero_iff hx]
+  unfold R1cs.isqrt at hsat
+  have hz : (x == 0) = false := by simpa using hx0
+  simp only [Option.getD_some, hz, Bool.false_eq_true, if_false, Bool.and_false, Bool.not_false, Bool.true_or,
+    Bool.and_true, Bool.not_true, Bool.false_or, Bool.or_false, Bool.true_and] at hsat
+  cases f with
+  | true =>
+    simp only [Bool.not_true, Bool.false_or, Bool.not_false, Bool.true_or, Bool.and_true, Bool.or_true,
+      Bool.true_and, Bool.and_self] at hsat
+    have h1 : fsq q y = finv q x := by simpa using hsat
+    have := congrArg (Nat.cast : ℕ → Fq) h1
+    rw [cast_fsq, cast_finv q_gt_two] at this
+    have hyx : (y : Fq) ^ 2 * (x : Fq) = 1 := by rw [sq, this, inv_mul_cancel₀ hxq]
+    refine ⟨⟨fun _ => ?_, fun _ => rfl⟩, by rw [if_pos rfl]; exact hyx⟩
+    have hy0 : (y : Fq) ≠ 0 := by rintro h0; rw [h0] at hyx; simp at hyx
+    exact ⟨1 / (y : Fq), by field_simp; linear_combination hyx⟩
+  | false =>
+    simp only [Bool.not_false, Bool.true_or, Bool.true_and, Bool.not_true, Bool.false_or, Bool.or_false,
+      Bool.and_true] at hsat
+    have h1 : fsq q y = fmul q ZETA (finv q x) := by simpa using hsat
+    have := congrArg (Nat.cast : ℕ → Fq) h1
+    rw [cast_fsq, cast_fmul, cast_finv q_gt_two] at this
+    have hyx : (y : Fq) ^ 2 * (x : Fq) = (ZETA : Fq) := by rw [sq, this, mul_assoc, inv_mul_cancel₀ hxq, mul_one]
+    refine ⟨⟨fun h => absurd h (by simp), fun hs => ?_⟩, by rw [if_neg (by simp)]; exact hyx⟩
+    exfalso
+    obtain ⟨w, hw⟩ := hs
+    apply zeta_nonsquare
+    exact ⟨(y : Fq) * w, by rw [← hyx, hw]; ring⟩
+
+/-- **the exact characterisation at den = 0** -/
+theorem isqrt_rel_zero (f : Bool) (y : ℕ) (hy : y < q) :
+    (R1cs.isqrt 0 (some (f, y))).1 = true ↔ (f = false ∧ y = 0) ∨ (f = true ∧ (y : Fq) ^ 2 = 1) := by
+  have hinv : finv q 1 = 1 := by decide +kernel
+  unfold R1cs.isqrt
+  simp only [Option.getD_some, beq_self_eq_true, if_true, hinv]
+  cases f with
+  | true =>
+    simp only [Bool.not_true, Bool.false_or, Bool.false_and, Bool.not_false, Bool.true_or, Bool.and_true,
+      Bool.or_false, Bool.true_and, Bool.or_true, reduceCtorEq, false_and, true_and, false_or]
+    constructor
+    · intro h
+      have h1 : fsq q y = 1 := by simpa using h
+      have := congrArg (Nat.cast : ℕ → Fq) h1
+      rw [cast_fsq, Nat.cast_one] at this
+      rw [sq]; exact this
+    · intro h
+      have : fsq q y = 1 := by
+        apply eq_of_cast_eq (fsq_lt q_pos _) one_lt_q
+        rw [cast_fsq, Nat.cast_one, ← sq]; exact h
+      simp [this]
+  | false =>
+    simp only [Bool.not_false, Bool.true_or, Bool.true_and, Bool.and_self, Bool.not_true, Bool.false_or,
+      Bool.and_false, Bool.or_false, Bool.and_true, true_and, reduceCtorEq, false_and, or_false]
+    constructor
+    · intro h
+      have h1 : fsq q y = 0 := by simpa using h
+      have := congrArg (Nat.cast : ℕ → Fq) h1
+      rw [cast_fsq, Nat.cast_zero] at this
+      have : (y : Fq) = 0 := mul_self_eq_zero.mp this
+      exact (cast_eq_zero_iff hy).mp this
+    · rintro rfl
+      decide +kernel
+
+set_option maxRecDepth 8000 in
+/-- **the decode gadget is sound wherever the discriminant argument is non-zero** (i.e. for every s except ±1):
+if all its constraints hold under ANY hint, the specification decodes s to exactly the point the gadget outputs;
+in particular an invalid encoding other than q-1 can never be decoded in-circuit -/
+theorem decompress_sound_partial {s : ℕ} (hs : s < q) (f : Bool) (y : ℕ) (hy : y < q)
+    (hden : fmul q (fsub q (fsq q (fsub q 1 (fsq q s))) (fmul q (fmul q 4 cD) (fsq q s))) (fsq q (fsub q 1 (fsq q s))) ≠ 0)
+    {X Y : ℕ} (hsat : R1cs.decompress s (some (f, y)) = (true, X, Y)) :
+    DecodesTo params paritySign ((s : ℕ) : Fq) ((X : ℕ) : Fq) ((Y : ℕ) : Fq) := by
+  unfold R1cs.decompress at hsat
+  simp only [] at hsat
+  set den := fmul q (fsub q (fsq q (fsub q 1 (fsq q s))) (fmul q (fmul q 4 cD) (fsq q s))) (fsq q (fsub q 1 (fsq q s))) with hdendef
+  have hdlt : den < q := fmul_lt q_pos _ _
+  -- split the result triple
+  have hiq : R1cs.isqrt den (some (f, y)) = ((R1cs.isqrt den (some (f, y))).1, f, y) := by
+    unfold R1cs.isqrt; simp
+  rw [hiq] at hsat
+  simp only [Prod.mk.injEq, Bool.and_eq_true, Bool.not_eq_true'] at hsat
+  obtain ⟨⟨⟨hnn, hq1⟩, hf⟩, hX, hY⟩ := hsat
+  subst hf
+  have hsound := isqrt_sound hdlt hden true y hy hq1
+  have hv : (y : Fq) ^ 2 * (den : Fq) = 1 := by have := hsound.2; rwa [if_pos rfl] at this
+  have hd : params.d = (cD : Fq) := rfl
+  have hden' : (den : Fq) = ((1 - (s : Fq) ^ 2) ^ 2 - 4 * params.d * (s : Fq) ^ 2) * (1 - (s : Fq) ^ 2) ^ 2 := by
+    rw [hdendef, hd]
+    simp only [cast_fmul, cast_fsub, cast_fsq, Nat.cast_one, Nat.cast_ofNat]
+    ring
+  rw [hden'] at hv
+  have hn : paritySign.neg (s : Fq) = false := by rw [← isNeg_eq hs]; exact hnn
+  have key := decodes_of_root (P := params) (S := paritySign) hn hv
+  simp only [] at key
+  -- the gadget's sign selection is the same test
+  have hchk : isNeg (fmul q (fmul q (fmul q 2 s) (fsub q 1 (fsq q s))) y)
+      = paritySign.neg (2 * (s : Fq) * (1 - (s : Fq) ^ 2) * (y : Fq)) := by
+    rw [isNeg_eq (fmul_lt q_pos _ _)]
+    simp only [cast_fmul, cast_fsub, cast_fsq, Nat.cast_one, Nat.cast_ofNat]
+    congr 1; ring
+  rw [hchk] at hX hY
+  have hvv : (((if paritySign.neg (2 * (s : Fq) * (1 - (s : Fq) ^ 2) * (y : Fq)) = true then fneg q y else y : ℕ)) : Fq)
+      = if paritySign.neg (2 * (s : Fq) * (1 - (s : Fq) ^ 2) * (y : Fq)) = true then -(y : Fq) else (y : Fq) := by
+    split <;> simp
+  have hXc : (X : Fq) = 2 * (s : Fq) * (1 - (s : Fq) ^ 2) *
+      (if paritySign.neg (2 * (s : Fq) * (1 - (s : Fq) ^ 2) * (y : Fq)) = true then -(y : Fq) else (y : Fq)) ^ 2 *
+      ((1 - (s : Fq) ^ 2) ^ 2 - 4 * params.d * (s : Fq) ^ 2) := by
+    rw [← hX, hd]
+    simp only [cast_fmul, cast_fsub, cast_fadd, cast_fsq, Nat.cast_one, Nat.cast_ofNat, hvv]
+    ring
+  have hYc : (Y : Fq) = (1 + (s : Fq) ^ 2) *
+      (if paritySign.neg (2 * (s : Fq) * (1 - (s : Fq) ^ 2) * (y : Fq)) = true then -(y : Fq) else (y : Fq)) *
+      (1 - (s : Fq) ^ 2) := by
+    rw [← hY]
+    simp only [cast_fmul, cast_fsub, cast_fadd, cast_fsq, Nat.cast_one, Nat.cast_ofNat, hvv]
+    ring
+  rw [hXc, hYc]
+  exact key
+
+/-- hence the native decoder accepts s (for any routine meeting the contract) -/
+theorem decompress_sound_native {sr : SR} (h : SRContract sr) {s : ℕ} (hs : s < q) (f : Bool) (y : ℕ) (hy : y < q)
+    (hden : fmul q (fsub q (fsq q (fsub q 1 (fsq q s))) (fmul q (fmul q 4 cD) (fsq q s))) (fsq q (fsub q 1 (fsq q s))) ≠ 0)
+    {X Y : ℕ} (hsat : R1cs.decompress s (some (f, y)) = (true, X, Y)) : ∃ c, decodeField sr s = .ok c := by
+  have hdec := decompress_sound_partial hs f y hy hden hsat
+  rcases decodeField_spec h s hs with ⟨_, hno⟩ | ⟨c, _, hok, _⟩
+  · exact absurd ⟨⟨(X : Fq), (Y : Fq), hdec.onCurve⟩, hdec⟩ hno
+  · exact ⟨c, hok⟩
+
+/-- **the known finding**: at s = q - 1 the forged hint (true, 1) satisfies every constraint of the decode gadget
+and the output is the non-point (0,0), although the specification (and both native decoders) reject q - 1 -/
+theorem decode_unsound_at_minus_one : R1cs.decompress (q - 1) (some (true, 1)) = (true, 0, 0) := by decide +kernel
+
+theorem minus_one_is_rejected_natively {sr : SR} (h : SRContract sr) (bytes : List ℕ) (hv : leBytes bytes = q - 1) :
+    ¬ ∃ c, decode32 sr bytes = .ok c := by
+  -- C02.rejects_minus_one, restated here to keep this file self-contained
+  intro hex
+  obtain ⟨c, hc⟩ := hex
+  have hlt : leBytes bytes < q := by rw [hv]; have := q_pos; omega
+  unfold decode32 fqFromBytesChecked at hc
+  by_cases ht : (bytes.getD 31 0 / 32 != 0) = true
+  · rw [if_pos ht] at hc; exact absurd hc (by simp)
+  · rw [if_neg ht] at hc
+    simp only [hlt, if_true] at hc
+    rcases decodeField_spec h _ hlt with ⟨herr, _⟩ | ⟨c', pt, _, _, hspec, _⟩
+    · rw [herr] at hc; exact absurd hc (by simp)
+    · obtain ⟨_, t, ht2, _⟩ := hspec
+      have hs : (((leBytes bytes : ℕ)) : Fq) = -1 := by rw [hv]; exact cast_q_sub_one
+      apply one_sub_sq_ne_zero_of_root ht2
+      rw [hs]; ring
+
+end C14
